@@ -104,7 +104,8 @@ func GetPosition(ast MalType) *Position {
 		// throw or assert
 		return nil
 	default:
-		panic(fmt.Errorf("GetPosition(%T)", value))
+		// values that carry no source position (numbers, strings, booleans, functions...)
+		return nil
 	}
 }
 
